@@ -95,6 +95,37 @@ func (c *Ctx) primitiveSweep(maxP int) {
 			}
 		}
 	}
+	// extrude.polygon (Polygon / Circle.Extrude): the winding of each quad is a float decision, so the index list
+	// is checked by an oracle line against the generator with the flags read off the output
+	for pl := 0; pl <= 5; pl++ {
+		for sd := 2; sd <= 6; sd++ {
+			pl, sd := pl, sd
+			pts := make([]extrude.ExtrusionPoint, pl)
+			p := vector3.Zero[float64]()
+			for j := range pts {
+				p = p.Add(vector3.New(float64(c.Rng.Intn(3)), 1+float64(c.Rng.Intn(3)), float64(c.Rng.Intn(3)-1)))
+				pts[j] = extrude.ExtrusionPoint{Point: p, Thickness: 0.5 + float64(c.Rng.Intn(3))}
+				if c.Rng.Intn(2) == 0 {
+					pts[j].UV = &extrude.ExtrusionPointUV{Point: vector2.New(0.5, float64(j)), Thickness: 1}
+				}
+			}
+			var m modeling.Mesh
+			st := guardMesh(func() string { m = extrude.Polygon(sd, pts); return "" })
+			if st == "panic" {
+				c.Emit("c02.holds.polygon_idx", fmt.Sprintf("%d %d 0 generator-panicked", pl, sd), "panic")
+				continue
+			}
+			if st == "rejected" {
+				if pl >= 2 && sd >= 3 {
+					c.Emit("c02.holds.polygon_idx", fmt.Sprintf("%d %d 0 rejected-valid-parameters", pl, sd), "panic")
+				}
+				c.Note("polygon:rejected")
+				continue
+			}
+			c.Emit("c02.holds.polygon_idx", fmt.Sprintf("%d %d 0 %s", pl, sd, guardMesh(func() string { return genAnswer(m) })), "true")
+			c.wf("extrude.Polygon", m)
+		}
+	}
 	c.gen("quad", "", func() modeling.Mesh { return primitives.Quad{Width: 2, Depth: 3}.ToMesh() })
 	c.gen("quad", "", func() modeling.Mesh {
 		return primitives.Quad{Width: 2, Depth: 3, UVs: &primitives.StripUVs{Start: vector2.New(0., 0.5), End: vector2.New(1., 0.5), Width: 1}}.ToMesh()
@@ -188,9 +219,17 @@ func (c *Ctx) otherGenerators(k int) {
 				pts[j].UV = &extrude.ExtrusionPointUV{Point: vector2.New(0.5, float64(j)), Thickness: 1}
 			}
 		}
-		try("extrude.Polygon", func() modeling.Mesh { return extrude.Polygon(sides, pts) })
-		try("extrude.Circle", func() modeling.Mesh {
-			return extrude.Circle{Resolution: sides, Radius: 1, Path: p, ClosePath: c.Rng.Intn(2) == 0}.Extrude()
+		polyIdx := func(tag string, f func() modeling.Mesh) {
+			var m modeling.Mesh
+			if guardMesh(func() string { m = f(); return "" }) == "" {
+				c.Emit("c02.holds.polygon_idx", fmt.Sprintf("%d %d 0 %s", n, sides, guardMesh(func() string { return genAnswer(m) })), "true")
+			}
+			try(tag, f)
+		}
+		polyIdx("extrude.Polygon", func() modeling.Mesh { return extrude.Polygon(sides, pts) })
+		closePath := c.Rng.Intn(2) == 0
+		polyIdx("extrude.Circle", func() modeling.Mesh {
+			return extrude.Circle{Resolution: sides, Radius: 1, Path: p, ClosePath: closePath}.Extrude()
 		})
 		lps := make([]extrude.LinePoint, n)
 		for j := range lps {
